@@ -23,7 +23,8 @@
 //    without target address for 's', char vector, 'd', 'i', 'y'; untyped = existence): with/without address must agree, a value
 //    implies existence. Call forms of mpt_config_set derived from the drawn path: separator 0 (the string is one element) for
 //    single-element paths, an assignment character with a tail behind it, mpt_config_environ with a one-entry environment;
-//    queries with separator 0. A third of the views gets its base path in the length-linked (SepBinary) format, built element
+//    queries with separator 0. A third of the plain v-table text assignments passes the text as a character-vector slice
+//    without terminator (exact-size heap block / inside a larger buffer followed by non-zero bytes). A third of the views gets its base path in the length-linked (SepBinary) format, built element
 //    by element through mpt_path_addchar/valid/add; every modification through a view is read back through the process-wide
 //    store and through other views. Path scenario: a third of the paths uses a separator out of {0x7f,0x80,0xa7,0xb7,0xff}.
 //    Two thirds of the views are opened from a path descriptor with off > 0 (remainder of a longer
